@@ -5,7 +5,7 @@ full-data series equal the requested initial state, computed by the Lean initial
 from fractions import Fraction as F
 import numpy as np, networkx as nx
 import common, odes, gen
-from common import fr
+from common import fr, rs
 from sims import err_enum
 
 RATES = [(0.4, 1.0), (2.0, 0.1), (0.0, 1.0), (1.0, 0.0), (1.0, 1.0)]
@@ -149,8 +149,88 @@ def probe_known3(ctx):
                       dict(entry="SIR_homogeneous_pairwise_from_graph", depleting=True, probe=True))
 
 
+def generated_initcond(ctx):
+    """the Lean code GENERATED from _initialize_node_status_, _count_edge_types_ and _get_Nk_and_IC_as_arrays_
+    (harness/pyinit2lean.py -> Gen/InitCondGen.lean), run by its own driver on the same graphs and initial sets as the
+    Python functions (incl. overlapping sets and nodes outside G, which must raise EoNError on both sides)."""
+    import fcntl, subprocess, os, json, pyinit2lean
+    import EoN.analytic as an
+    lean = common.LEAN
+    os.makedirs(os.path.join(lean, ".audit"), exist_ok=True)
+    with open(os.path.join(lean, ".audit", "geninit.lock"), "w") as lock:
+        fcntl.flock(lock, fcntl.LOCK_EX)
+        try:
+            _, errors = pyinit2lean.regenerate()
+        except Exception as e:
+            errors = {"translator": "crashed: %r" % e}
+        if errors:
+            ctx.disagreement("generated-initcond:translation", dict(entry="initial-condition builders", errors=errors))
+            return
+        p = common.lake(["build", "driverinit"])
+    if p.returncode != 0:
+        ctx.disagreement("generated-initcond:build", dict(entry="initial-condition builders", log="\n".join(
+            l for l in (p.stdout + p.stderr).splitlines() if "error" in l)[:1500]))
+        return
+    reqs, impls = [], []
+    for k in range(ctx.scale(300, 2000)):
+        G, gkind = odes.graph(ctx.rng, small=ctx.rng.random() < 0.5)
+        idx = gen.index_of(G)
+        nodes = list(G)
+        n = len(nodes)
+        infs = ctx.rng.sample(nodes, ctx.rng.randint(0, min(4, n)))
+        rest = [u for u in nodes if u not in infs]
+        recs = ctx.rng.sample(rest, ctx.rng.randint(0, min(3, len(rest))))
+        shape = ["ok", "ok", "ok", "overlap", "outside", "dup"][k % 6]
+        outside = []
+        if shape == "overlap" and infs:
+            recs = recs + [infs[0]]
+        elif shape == "outside":
+            outside = ["__not_a_node__"]
+        elif shape == "dup" and infs:
+            infs = infs + [infs[-1]]
+        rho = ctx.rng.choice([0.125, 0.25, 0.5])
+        def call(f):
+            try:
+                return dict(ok=True, val=f())
+            except an.EoN.EoNError:
+                return dict(ok=False, err="EoNError")
+            except Exception as e:
+                return dict(ok=False, err=type(e).__name__)
+        ii, rr = infs + outside, recs
+        st = call(lambda: an._initialize_node_status_(G, ii, rr))
+        if st["ok"]:
+            st["val"] = [st["val"][u] for u in nodes]
+        ce = call(lambda: [int(x) for x in an._count_edge_types_(G, ii, rr, SIR=False)])
+        nk = call(lambda: [[rs(x) for x in a] for a in an._get_Nk_and_IC_as_arrays_(G, initial_infecteds=ii, initial_recovereds=rr)])
+        rh = [[rs(x) for x in a] for a in an._get_Nk_and_IC_as_arrays_(G, rho=rho)]
+        impls.append((dict(entry="initial-condition builders", graph=dict(kind=gkind, n=n, edges=[[idx[u], idx[v]] for u, v in G.edges()]),
+                           infs=[idx.get(u, n) for u in ii], recs=[idx[u] for u in rr], shape=shape, rho=rho), st, ce, nk, rh))
+        reqs.append(dict(n=n, deg=[G.degree(u) for u in nodes], edges=[[idx[u], idx[v]] for u, v in G.edges()],
+                         infs=[idx.get(u, n) for u in ii], recs=[idx[u] for u in rr], rho=rs(rho)))
+        ctx.count("initcond-gen:" + shape)
+    exe = os.path.join(lean, ".lake", "build", "bin", "driverinit")
+    data = "\n".join(json.dumps(r, separators=(",", ":")) for r in reqs) + "\n"
+    q = subprocess.run([exe], input=data, capture_output=True, text=True)
+    lines = q.stdout.splitlines()
+    if q.returncode != 0 or len(lines) != len(reqs):
+        raise RuntimeError("driverinit crashed: " + q.stderr[-1000:])
+    for (rep, st, ce, nk, rh), line in zip(impls, lines):
+        g = json.loads(line)
+        ctx.case(rep, nontrivial=True)
+        d = []
+        for name, a, b in (("_initialize_node_status_", st, g["status"]), ("_count_edge_types_", ce, g["edges"]),
+                           ("_get_Nk_and_IC_as_arrays_(sets)", nk, g["sets"])):
+            if a != b:
+                d.append(name)
+        if rh != g["rho"]:
+            d.append("_get_Nk_and_IC_as_arrays_(rho)")
+        if d:
+            ctx.disagreement("generated-initcond:" + ",".join(d), dict(rep, impl=dict(status=st, edges=ce, sets=nk, rho=rh), generated=g))
+
+
 def run(ctx):
     drv = common.LeanDriver()
+    generated_initcond(ctx)
     probe_known(ctx)
     probe_known2(ctx)
     probe_known3(ctx)
